@@ -102,9 +102,10 @@ def candidatePairs (samples : List String) (peds : List (String × String)) (nid
 def pairNames (pairs : List (Option String × Option String)) : List String :=
   pairs.flatMap (fun p => p.1.toList ++ p.2.toList)
 
-/-- `_choose_samples`.  Repaired code (fix Y): a normal id that leaves no other sample to be the
-    tumour raises the `IndexError` the source always meant to raise (its `except StopIteration`
-    could never fire, so the reader went on with no sample at all). -/
+/-- `_choose_samples`.  Repaired code (fix Y): when no pair is left and no `sample_id` was given
+    either (a normal id on a file without any other sample), the `IndexError` the source always
+    meant to raise is raised; its `except StopIteration` could never fire, and the reader went on
+    with no sample at all, filling the rows from INFO. -/
 def chooseSamples (samples : List String) (tags : List PedTag) (sidSel nidSel : Sel) :
     Except VErr (String × Option String) := do
   let sid ← resolveSel samples sidSel
@@ -114,14 +115,11 @@ def chooseSamples (samples : List String) (tags : List PedTag) (sidSel nidSel : 
     | some s => if !samples.contains s then throw .indexError
     | none => pure ()
   let peds ← parsePedigrees tags
-  if peds.isEmpty then
-    match truthy nid with
-    | some n => if (samples.filter (fun s => s != n)).isEmpty then throw .indexError
-    | none => pure ()
   let pairs0 := candidatePairs samples peds nid
   let pairs1 := match truthy sid with
     | some s => pairs0.filter (fun p => p.1 == some s)
     | none => pairs0
+  if pairs1.isEmpty && (truthy sid).isNone then throw .indexError
   let pairs := if pairs1.isEmpty then [(sid, (none : Option String))] else pairs1
   for nm in pairNames pairs do
     if samples.count nm != 1 then throw .indexError
@@ -202,10 +200,8 @@ deriving Repr, DecidableEq, Inhabited
 /-- `skip_reject`: some FILTER entry other than ".", "PASS", "KEEP" -/
 def rejected (r : Rec) : Bool := r.filt.any (fun f => !(f == "." || f == "PASS" || f == "KEEP"))
 
-/-- `_get_end` without INFO/END.  Repaired code (fix Z): the row covers the reference bases of the
-    record, `start + len(ref)`; the source added `len(alt)`, which stretched an insertion over
-    bases (and segments) after it and shrank a deletion. -/
-def endOf (start : Int) (r : Rec) : Int := start + r.ref.length
+/-- `_get_end` without INFO/END: `posn + len(alt)` -/
+def endOf (start : Int) (alt : String) : Int := start + alt.length
 
 /-- the rows `_parse_records` yields for one record: one per ALT allele (the gVCF placeholder
     `<NON_REF>` skipped), all carrying the same genotype columns; `record.start` = POS − 1 -/
@@ -215,7 +211,7 @@ def rowsOfRec (si : Nat) (ni : Option Nat) (r : Rec) : List VRow :=
   let ng := ni.map (fun j => genoOf (r.smps[j]?.getD default) r)
   let start := r.pos - 1
   (r.alts.filter (fun a => a != "<NON_REF>")).map fun a =>
-    { chrom := r.chrom, s := start, e := endOf start r, ref := r.ref, alt := a,
+    { chrom := r.chrom, s := start, e := endOf start a, ref := r.ref, alt := a,
       somatic := r.somatic, t := tg, n := ng }
 
 def parseRecords (si : Nat) (ni : Option Nat) (skipReject : Bool) (recs : List Rec) : List VRow :=
@@ -267,10 +263,12 @@ def readVcf (samples : List String) (tags : List PedTag) (recs : List Rec) (o : 
   let si := samples.idxOf sid
   let nidT := truthy nid
   let ni := nidT.map (fun n => samples.idxOf n)
-  let rows := parseRecords si ni o.skipReject recs
-  let rows := depthFilter o.minDepth rows
+  let rows0 := parseRecords si ni o.skipReject recs
+  let rows := depthFilter o.minDepth rows0
   let rows := somaticFilter o.skipSomatic rows
-  pure { paired := nidT.isSome, rows := sortV rows }
+  -- a table without any row has object-typed columns; `table[~table["somatic"]]` then selects no
+  -- *columns*, and the blank VariantArray built from it has lost the n_* columns
+  pure { paired := nidT.isSome && !(o.skipSomatic && rows0.isEmpty), rows := sortV rows }
 
 /-! ## load_het_snps -/
 
@@ -439,5 +437,47 @@ def mirroredBafOf (tb : VTable) (aboveHalf : Option Bool) (boost : Bool) : List 
 /-- `call.rescale_baf(purity, observed_baf, normal_baf=0.5)` -/
 def rescaleBaf (purity obs : Rat) (normal : Rat := 1/2) : Rat :=
   (obs - normal * (1 - purity)) / purity
+
+/-! ## the property's wording, as decidable checks (evaluated on the real output by the driver) -/
+
+/-- "PEDIGREE-declared pairs first, else the given tumour and normal ids, else the first sample":
+    `s`, `n` are the selectors resolved to names (`none` = not given).  A tumour id that no
+    declared pair has as its tumour is read alone; a normal id that leaves no other sample to be
+    the tumour admits no choice. -/
+def specPair (samples : List String) (peds : List (String × String)) (s n : Option String) :
+    Option (String × Option String) :=
+  if !peds.isEmpty then
+    match s with
+    | some x => match peds.find? (fun p => p.1 == x) with
+      | some p => some (p.1, some p.2)
+      | none => some (x, none)
+    | none => peds.head?.map (fun p => (p.1, some p.2))
+  else match n with
+    | some y => match s with
+      | some x => if x != y then some (x, some y) else some (x, none)
+      | none => (samples.find? (fun o => o != y)).map (fun o => (o, some y))
+    | none => match s with
+      | some x => some (x, none)
+      | none => samples.head?.map (fun x => (x, none))
+
+/-- zygosity "from the genotype": with every allele called, 0 = all reference, 1 = all the same
+    non-reference allele, 0.5 = differing alleles; a genotype with a "." is only required to get one
+    of the three values -/
+def specZygOk (gt : List (Option Int)) (z : Rat) : Bool :=
+  if gt.all (fun a => a.isSome) && !gt.isEmpty then
+    if gt.all (fun a => a == some 0) then z == 0
+    else if gt.all (fun a => a == gt.head?.getD none) then z == 1
+    else z == 1/2
+  else z == 0 || z == 1/2 || z == 1
+
+/-- a record's row lies inside a range: same chromosome, intervals overlap -/
+def overlaps (g : String × Int × Int) (r : VRow) : Bool :=
+  r.chrom == g.1 && decide (r.e > g.2.1) && decide (r.s < g.2.2)
+
+/-- the BAF of one range in the property's words: the heterozygous rows inside it, their
+    frequencies mirrored to one side of 0.5, the median of those; `none` where there are none -/
+def specBaf (paired boost : Bool) (aboveHalf : Option Bool) (rows : List VRow)
+    (g : String × Int × Int) : Option Rat :=
+  summarize aboveHalf (((rows.filter isHet).filter (overlaps g)).map (bafFreq paired boost))
 
 end CnvVerif.Vcf
